@@ -452,7 +452,7 @@ func SolveAll(obs []*Obligation, dir string, timeoutS, workers int) {
 	}
 	close(ch)
 	wg.Wait()
-	// Escalation: what is still undecided is tried once more, two at a time, with twelve
+	// Escalation: what is still undecided is tried once more, two at a time, with eight
 	// times the limit.  On a loaded or slow machine a proof that needs a few seconds
 	// otherwise runs into the limit; a handful of such obligations is load, many are a
 	// real failure (and are reported without further waiting).
@@ -462,7 +462,7 @@ func SolveAll(obs []*Obligation, dir string, timeoutS, workers int) {
 			open = append(open, o)
 		}
 	}
-	if len(open) == 0 || len(open) > 16 {
+	if len(open) == 0 || len(open) > 12 {
 		return
 	}
 	ch2 := make(chan *Obligation)
@@ -472,7 +472,7 @@ func SolveAll(obs []*Obligation, dir string, timeoutS, workers int) {
 		go func() {
 			defer wg2.Done()
 			for o := range ch2 {
-				solveWith(o, dir, timeoutS*12, true, 34)
+				solveWith(o, dir, timeoutS*8, true, 34)
 			}
 		}()
 	}
